@@ -15,7 +15,7 @@ import (
 
 func init() {
 	register(&Rule{Name: "ESCAPE-SET", Floor: 1,
-		Doc: "the byte test of encodeGrpcMessage, evaluated over all 256 byte values as a table of constant comparisons, escapes at least every byte the gRPC spec does not allow raw in grpc-message (< 0x20, > 0x7E, '%')",
+		Doc: "the byte test of encodeGrpcMessage, evaluated over all 256 byte values as a table of constant comparisons, escapes at least every byte the gRPC spec does not allow raw in grpc-message (< 0x20, > 0x7E, '%'); the escape is written as % and exactly two hex digits",
 		Run: ruleEscapeSet})
 	register(&Rule{Name: "FWD-ERR-PROMPT", Floor: 1,
 		Doc: "in the stream forwarder the backend's error is returned without first joining the inbound pump (the pump blocks on the client; waiting for it withholds the backend's status until the client acts)",
